@@ -10,6 +10,9 @@ use crate::value::V;
 pub const SHORTS: &[char] = &[
     'a', 'b', 'c', 'd', 'e', 'f', 'g', 'i', 'j', 'k', 'l', 'm', 'n', 'o', 'p', 'q', 'r', 's', 't',
     'u', 'v', 'w', 'x', 'y', 'z', 'A', 'B', 'C', 'ñ', 'ж', '口', '1',
+    // the edges of every UTF-8 encoding length: 2 bytes (U+0080, U+07FF), 3 bytes (U+0800 with
+    // lead byte 0xE0, U+0E01, U+FFFD), 4 bytes (U+10000, U+1F600)
+    '\u{80}', '\u{7ff}', '\u{800}', 'ก', '\u{fffd}', '\u{10000}', '😀',
 ];
 
 pub const LONGS: &[&str] = &[
